@@ -3,7 +3,8 @@
  * tree created by p_tree_new*; after every call the observable results (return value, nnodes, lookup
  * of an arbitrary key, notifier calls of exactly this call) are compared with a reference map; at the
  * end the whole structure is checked from the root, then p_tree_free and exactly-once accounting.
- * Parameters: TT, NOPS, NEWMODE, CHK_MAP / CHK_BAL / CHK_OWN. */
+ * Parameters: TT, NOPS, NEWMODE (notifier configuration, see trees_common.h), NULLTOK (rank whose first-call pair is NULL/NULL),
+ * CHK_MAP / CHK_BAL / CHK_OWN. */
 #ifndef NOPS
 #define NOPS 3
 #endif
@@ -24,13 +25,10 @@ static void check_phase(int ph, int lr, int lid) {
   for (r = 1; r <= NK; r++)
     for (id = 1; id <= IDMAX; id++) {
       int leaves = (r == lr && id == lid);
-#if NEWMODE == 2
-      VASSERT(kd[ph][r][id] == (leaves ? 1 : 0), "key notifier during this call: exactly the key that leaves the tree, once");
-      VASSERT(vd[ph][r][id] == (leaves ? 1 : 0), "value notifier during this call: exactly the value that leaves the tree, once");
-#else
-      VASSERT(kd[ph][r][id] == 0 && vd[ph][r][id] == 0, "no notifiers given: none called");
-      (void) leaves;
-#endif
+      if (has_kn) VASSERT(kd[ph][r][id] == (leaves ? 1 : 0), "key notifier during this call: exactly the key that leaves the tree, once");
+      else VASSERT(kd[ph][r][id] == 0, "no key notifier given: none called");
+      if (has_vn) VASSERT(vd[ph][r][id] == (leaves ? 1 : 0), "value notifier during this call: exactly the value that leaves the tree, once");
+      else VASSERT(vd[ph][r][id] == 0, "no value notifier given: none called");
     }
 }
 
@@ -51,6 +49,10 @@ static int has_two_children(int r) {
 
 void harness(void) {
   int i, replaced = 0, removed = 0;
+#ifdef NULLTOK
+  /* the pair inserted by the FIRST call, if its key has rank NULLTOK, is (NULL key, NULL value) */
+  zk_rank = zv_rank = NULLTOK; zk_id = zv_id = 1;
+#endif
   make_tree();
   for (i = 0; i < NOPS; i++) {
 #ifdef NFIX
@@ -71,10 +73,15 @@ void harness(void) {
       exp_pres[r] = 1; exp_key[r] = KEY(r, i + 1); exp_val[r] = VAL(r, i + 1);
       ever_key[r][i + 1] = 1;
     } else {
-#if defined(KF_OPEN_C14_two_child_remove) && NEWMODE == 2
+#if defined(KF_OPEN_C14_two_child_remove) && NEWMODE >= 2
       VASSUME(!has_two_children(r));
 #endif
+#ifdef NULLTOK
+      /* remove by the stored key object itself when there is one (the NULL pointer for the NULL-keyed pair) */
+      pboolean ret = p_tree_remove(tree, exp_pres[r] ? exp_key[r] : KEY(r, ID_PROBE));
+#else
       pboolean ret = p_tree_remove(tree, KEY(r, ID_PROBE));
+#endif
       VASSERT(ret == (exp_pres[r] ? TRUE : FALSE), "remove returns TRUE iff the key was stored");
       if (exp_pres[r]) { lr = r; lid = ID(exp_key[r]); exp_pres[r] = 0; exp_n--; removed++; }
     }
@@ -100,15 +107,13 @@ void harness(void) {
       for (id = 1; id <= IDMAX; id++) {
         int k = 0, v = 0;
         for (ph = 0; ph < NPHASE; ph++) { k += kd[ph][r][id]; v += vd[ph][r][id]; }
-#if NEWMODE == 2
-        VASSERT(k == (ever_key[r][id] ? 1 : 0) && v == (ever_key[r][id] ? 1 : 0), "every key and value ever stored is destroyed exactly once over the whole history + free");
-#else
-        VASSERT(k == 0 && v == 0, "no notifiers given: none called");
-#endif
+        VASSERT(k == ((has_kn && ever_key[r][id]) ? 1 : 0), "every key ever stored is destroyed exactly once over the whole history + free (iff a key notifier was given)");
+        VASSERT(v == ((has_vn && ever_key[r][id]) ? 1 : 0), "every value ever stored is destroyed exactly once over the whole history + free (iff a value notifier was given)");
       }
   }
 #endif
   VWITNESS("history done");
+  witness_notifier_config();
 #ifndef PREFIX_DUP
   if (exp_n == NOPS) VWITNESS("NOPS distinct keys stored");
 #endif
